@@ -176,7 +176,16 @@ def run(ctx):
                 else:
                     viol.append({"what": "endpoint run (%s) failed: %s" % (mode, r[1]), **rec})
                 continue
-            why = compare_shapes(ref, r[0], cfg)
+            sizes = gen.class_sizes(g)
+            if cap is not None and any(v > cap for c_, v in sizes.items() if tmode != 'classes' or c_ in cfg['targets']):
+                # the cap bites: which instances are kept depends on the order in which the source lists them (document order
+                # locally, the endpoint's row order remotely), so only the shapes and their sizes are comparable
+                l0 = sorted((sh['label'], sh['n']) for sh in ref['shapes'])
+                l1 = sorted((sh['label'], sh['n']) for sh in r[0]['shapes'])
+                why = None if l0 == l1 else "with a biting instances_cap: shapes / sizes differ: %s vs %s" % (l0[:6], l1[:6])
+                stats["cap_bites"] = stats.get("cap_bites", 0) + 1
+            else:
+                why = compare_shapes(ref, r[0], cfg)
             if why:
                 obs = {"kind": "endpoint", "why": why, "inverse": cfg['inverse'], "targets": tmode, "cap": cap, "triples": g, "cfg": cfg}
                 fid = F.match(kf, obs)
@@ -195,7 +204,7 @@ def run(ctx):
             stats["queries_cache_off"] += res[True][2]
             stats["saved_by_cache"] += res[True][2] - res[False][2]
             if res[False][1] != res[True][1]:
-                why = compare_shapes(res[True][0], res[False][0], cfg)
+                why = compare_shapes(res[True][0], res[False][0], cfg)      # same source, same row order: caps select the same nodes
                 if why:
                     viol.append({"what": "disable_endpoint_cache changes the result: %s" % why, "cache_on": res[False][1][:1200], "cache_off": res[True][1][:1200], **rec})
             if res[False][2] > res[True][2]:
